@@ -224,7 +224,16 @@ def decode_calls():
 
     def wrap(fn, tag):
         def w(*a, **k):
-            log.append(tag)
+            # observed at function entry: the codec and the parameter PDFStream.decode hands to it
+            if tag == "LZW":
+                ec = a[1] if len(a) > 1 else k.get("early_change", 1)
+                log.append("LZW0" if ec == 0 else "LZW")
+            elif tag == "CCF":
+                prm = a[1] if len(a) > 1 else k.get("params")
+                kk = prm.get("K") if isinstance(prm, dict) else None
+                log.append("CCF" if kk == -1 else "CCF?")
+            else:
+                log.append(tag)
             return fn(*a, **k)
         return w
 
